@@ -20,7 +20,7 @@ EXTRA_STAGES = {}
 
 SUB_STAGES = [
     {"kind": "cases", "name": "sequential", "driver": "SUBSEQ", "n": {"quick": 60, "thorough": 600}},
-    {"kind": "cases", "name": "schedules", "driver": "SUB", "binary": "verifs", "n": {"quick": 60, "thorough": 600}},
+    {"kind": "cases", "name": "schedules", "driver": "SUB", "binary": "verifs", "parallel": 12, "n": {"quick": 60, "thorough": 600}},
 ]
 SUB_RULE = ("sequential: method sequences on a real LocalSubscriber (buffer 1000) with 999/1000/1001/1500 pending updates live, from history, "
             "queued before go-live and with a consumer, plus random sequences, compared call by call with the transition system run under the "
@@ -36,7 +36,7 @@ SUB_TRUST = ["sync.RWMutex, sync/atomic and channels behave as the Go memory mod
              "transition system's outcomes; the theorems are about the fine-grained transition system",
              "yieldify rewriter + cooperative scheduler (harness/cmd/yieldify, harness/overlay/zz_vsched.go.txt)"]
 
-HUB_STAGE = {"kind": "cases", "name": "hub-histories", "driver": "HUBSEQ", "n": {"quick": 400, "thorough": 6000}}
+HUB_STAGE = {"kind": "cases", "name": "hub-histories", "driver": "HUBSEQ", "parallel": 8, "n": {"quick": 400, "thorough": 4000}}
 HUB_RULE = ("handler-level sequential histories on the real hub (both transports; retention size 0/2/3; subscription events on/off): 6-20 operations "
             "drawn from a client that stops reading / reads again (its handler blocks in Write), bursts of publishes (every 8th case: 1000, 1001, 1002 or 1005 "
             "updates to a stalled subscriber while another one keeps reading, so that the hub cuts the slow one off), publish (1-2 topics over {a,b,c}, private or not), subscribe (selectors over {a,b,c,*}, anonymous / claim [a|b] / claim [*], "
@@ -49,7 +49,7 @@ HUB_TRUST = ["critical sections under the transport lock and LocalSubscriber met
              "schedule-steered stages where present, the tie to the code of this stage is sequential",
              "bbolt: atomic durable write transactions, snapshot reads, ordered cursor", "net/http, encoding/json, Prometheus client"]
 
-TRANS_STAGE = {"kind": "cases", "name": "transport-schedules", "driver": "TRANS", "binary": "verifs", "n": {"quick": 20, "thorough": 300}}
+TRANS_STAGE = {"kind": "cases", "name": "transport-schedules", "driver": "TRANS", "binary": "verifs", "parallel": 12, "n": {"quick": 24, "thorough": 240}}
 TRANS_RULE = (" transport-schedules: 2-4 goroutines calling Dispatch / AddSubscriber(+Disconnect/RemoveSubscriber) / Close on a real Bolt or local transport whose "
               "current sources are instrumented at check time (yield before every statement that calls out or touches a channel, locks routed through the scheduler, "
               "buffer capacity 2), with an initial history, optional restart before, Last-Event-ID none/earliest/stored/unknown: every schedule with <= 2 preemptions "
